@@ -240,14 +240,27 @@ def tla_set(items):
 
 
 def run_tlapm(modules, main, timeout=1500):
-    """copy the modules to a scratch directory, run tlapm on `main`; -> (obligations proved or None, output tail)"""
-    tmp = tempfile.mkdtemp(prefix='tlaps_', dir=os.environ.get('VERIF_TMP', '/tmp'))
-    try:
-        for f in modules:
-            shutil.copy(os.path.join(SPEC, f), tmp)
-        p = subprocess.run(['tlapm', '-I', '/opt/veriftools/tla', main], cwd=tmp, capture_output=True, text=True, timeout=timeout)
-        out = p.stdout + p.stderr
-    finally:
-        shutil.rmtree(tmp, ignore_errors=True)
-    m = re.search(r'All (\d+) obligations? proved', out)
-    return (int(m.group(1)) if m else None), out[-3000:]
+    """copy the modules to a scratch directory, run tlapm on `main`; -> (obligations proved or None, output tail).
+    Runs of tlapm are serialised across processes (its back ends use fixed scratch names) and retried once."""
+    import fcntl
+
+    base = os.environ.get('VERIF_TMP', '/tmp')
+    out = ''
+    with open(os.path.join(base, 'verif_tlapm.lock'), 'w') as lock:
+        fcntl.flock(lock, fcntl.LOCK_EX)
+        for attempt in range(2):
+            tmp = tempfile.mkdtemp(prefix='tlaps_', dir=base)
+            try:
+                for f in modules:
+                    shutil.copy(os.path.join(SPEC, f), tmp)
+                try:
+                    p = subprocess.run(['tlapm', '-I', '/opt/veriftools/tla', main], cwd=tmp, capture_output=True, text=True, timeout=timeout)
+                    out = p.stdout + p.stderr
+                except subprocess.TimeoutExpired:
+                    out = 'TIMEOUT'
+            finally:
+                shutil.rmtree(tmp, ignore_errors=True)
+            m = re.search(r'All (\d+) obligations? proved', out)
+            if m:
+                return int(m.group(1)), out[-3000:]
+    return None, out[-3000:]
